@@ -3,6 +3,11 @@ package props
 import (
 	"bytes"
 	"fmt"
+	"github.com/q191201771/lal/pkg/base"
+	"github.com/q191201771/lal/pkg/hls"
+	"lalverif/gen"
+	"lalverif/srv"
+	"strings"
 	"time"
 
 	"lalverif/fw"
@@ -250,12 +255,12 @@ func init() {
 		ID: "C09",
 		NumCases: func(tier string, seed int64) int {
 			nb, nr := c09Sizes(tier)
-			return c09RangeCases + nb + nr + 2
+			return c09RangeCases + nb + nr + 2 + c09RemuxCases
 		},
 		CaseTimeout: func(string) time.Duration { return 10 * time.Minute },
 		Rule: "cases: (a) every length 1..2400 × key/non-key × PTS=DTS/PTS≠DTS × audio/video pid × incoming cc 0..15; " +
 			"(b) every length within ±376 of seeded multiples of 184 up to 200 KiB with seeded flags; (c) seeded lengths up to 300 KiB in chains of 3 frames; " +
-			"(d) PTS/DTS at 0 and around 2^33; (e) PackPat and PackPmt for all codec id pairs. A cell is (clause-class: key × short/exact/multi × pts/dts × track) or a PMT codec pair; " +
+			"(d) PTS/DTS at 0 and around 2^33; (e) PackPat and PackPmt for all codec id pairs; (f) 12 streams (audio-only, AVC, HEVC, video-only; sparse audio, timestamp jumps) through the real RTMP→TS remuxer wired to the HLS muxer as logic.Group wires them: continuity counters over everything handed to the muxer advance by one per payload packet per PID. A cell is (clause-class: key × short/exact/multi × pts/dts × track) or a PMT codec pair; " +
 			"non-trivial = the frame was packed by lal and fully re-parsed by the reference demuxer.",
 		Assumptions: []string{"reference demuxer ref/ts.go follows ISO/IEC 13818-1; its self-test runs in setup_cmd",
 			"lal's constant 63000-tick PTS/DTS delay is permitted by the property text"},
@@ -263,6 +268,66 @@ func init() {
 		MinCells:   20,
 		Run:        c09Run,
 	})
+}
+
+const c09RemuxCases = 12
+
+// c09Remux: the continuity clause across frames as the real producer drives it — the RTMP→TS
+// remuxer wired to the HLS muxer exactly as logic.Group wires them (a fragment opened by an
+// audio frame flushes the audio batch re-entrantly). Over everything handed to the muxer, the
+// continuity counter of every PID must advance by one per payload-carrying packet.
+func c09Remux(c *fw.Ctx, k int) {
+	r := c.Rng
+	vc := []string{"", "avc", "hevc", "avc"}[k%4]
+	ac := "aac"
+	if k%6 == 5 && vc != "" {
+		ac = ""
+	}
+	sp := gen.EsSpec{VCodec: vc, ACodec: ac, AacIdx: 4, AacChans: 2, AacObj: 2, NVideo: 150 + r.Intn(150), GopLen: 5 + r.Intn(10), AudioPer: 1 + r.Intn(3), MaxNals: 1 + r.Intn(2),
+		VideoMs: []int{20, 40, 100}[r.Intn(3)], AudioGap: r.Intn(3) == 0, TsJump: k%3 == 1, TsStart: []uint32{0, 5000, 0xFFFFFF - 3000}[r.Intn(3)]}
+	c.Describe("remuxer continuity: spec=%+v", sp)
+	c.Cell("remuxer-cc/%s+%s", vc, ac)
+	fs := srv.NewRecFs()
+	fs.KeepOps = false
+	hls.VerifSetFsl(fs)
+	cfg := hls.MuxerConfig{OutPath: "/c09/", FragmentDurationMs: []int{500, 1000, 3000}[k%3], FragmentNum: 3, DeleteThreshold: 1, CleanupMode: 0}
+	rig := &c10Rig{c: c, fs: fs, cfg: cfg, name: fmt.Sprintf("cc%d", k), closed: map[string][]byte{}, hasVideo: vc != ""}
+	rig.dir = "/c09/" + rig.name
+	fs.OnOp = func(op srv.FsOp, _ *srv.RecFs) {
+		if op.Op == "create" && strings.HasSuffix(op.Path, ".ts") {
+			rig.started = true
+		}
+	}
+	rig.startIncarnation()
+	es := gen.BuildEs(c.SubRng("es"), 1, sp)
+	for _, m := range es.RtmpMessages(true) {
+		var msg base.RtmpMsg
+		msg.Header.MsgTypeId, msg.Header.TimestampAbs, msg.Header.MsgLen, msg.Header.MsgStreamId, msg.Header.Csid = m.Type, m.Ts, uint32(len(m.Payload)), 1, csidFor(m.Type)
+		msg.Payload = m.Payload
+		rig.remuxer.FeedRtmpMessage(msg)
+	}
+	rig.remuxer.Dispose()
+	rig.muxer.Dispose()
+	last := map[uint16]int{}
+	n := 0
+	for idx, pk := range rig.produced {
+		p, err := ref.ParseTsPacket(pk)
+		if err != nil {
+			c.Violate("remux/packet", fmt.Sprintf("packet %d handed to the muxer does not parse: %v", idx, err), nil)
+			return
+		}
+		if p.AFC&1 == 0 {
+			continue // no payload: the counter does not advance
+		}
+		n++
+		if prev, ok := last[p.PID]; ok && int(p.CC) != (prev+1)&15 {
+			c.Violate("remux/continuity", fmt.Sprintf("PID %#x: continuity_counter %d follows %d at packet %d of the remuxer's output (a frame was emitted twice or its counter was not carried over) | spec=%+v", p.PID, p.CC, prev, idx, sp), nil)
+			return
+		}
+		last[p.PID] = int(p.CC)
+	}
+	c.Eval(n)
+	c.Count("remuxer_packets_checked", n)
 }
 
 func c09Run(c *fw.Ctx, i int) {
@@ -353,6 +418,8 @@ func c09Run(c *fw.Ctx, i int) {
 		}
 		c.Cell("ts-extremes")
 		c.Sample(map[string]interface{}{"kind": "timestamp-extremes", "dts": []string{"0", "delay±1", "2^33-delay±1", "2^33-1"}})
+	case i > c09RangeCases+nb+nr+1:
+		c09Remux(c, i-(c09RangeCases+nb+nr+2))
 	default:
 		c.Describe("PackPat/PackPmt")
 		c09Psi(c)
